@@ -4,6 +4,7 @@ package main
 // resolution helpers every rule uses. Nothing in /repo is executed.
 
 import (
+	_ "embed"
 	"fmt"
 	"go/ast"
 	"go/token"
@@ -111,7 +112,93 @@ func LoadWorld(dir string, overlay map[string][]byte) (*World, error) {
 		}
 	}
 	sort.Slice(w.ProdFuncs, func(i, j int) bool { return w.FuncKey(w.ProdFuncs[i]) < w.FuncKey(w.ProdFuncs[j]) })
+	buildCtxIndex(w)
+	w.markNewFuncs()
 	return w, nil
+}
+
+// ---- inventory of today's functions --------------------------------------------------
+//
+// inventory.txt lists every production function of the tree the rules were written against. A function
+// that is not in it was introduced by a later edit; such a function is treated as transparent: its call
+// sites, mutations and guards are attributed to the functions that call it (unitOf), the way the code
+// would read if the helper had not been extracted. On the reference tree nothing is new, so this changes
+// nothing there.
+
+//go:embed inventory.txt
+var inventoryTxt string
+
+var newFuncs map[*ssa.Function]bool
+
+func (w *World) markNewFuncs() {
+	inv := map[string]bool{}
+	for _, l := range strings.Split(inventoryTxt, "\n") {
+		if l = strings.TrimSpace(l); l != "" {
+			inv[l] = true
+		}
+	}
+	newFuncs = map[*ssa.Function]bool{}
+	if len(inv) == 0 {
+		return
+	}
+	for _, f := range w.ProdFuncs {
+		if f.Parent() == nil && f.Synthetic == "" && !inv[w.FuncKey(f)] && !ctxEscapes[f] {
+			newFuncs[f] = true
+		}
+	}
+}
+
+// isNewHelper: a function introduced after the reference tree whose call sites are all visible.
+func isNewHelper(f *ssa.Function) bool { return f != nil && newFuncs[f] }
+
+// unitOf: f together with the new helpers it calls (transitively, bounded).
+func unitOf(f *ssa.Function) []*ssa.Function {
+	out := []*ssa.Function{f}
+	seen := map[*ssa.Function]bool{f: true}
+	for i := 0; i < len(out) && len(out) < 24; i++ {
+		for _, g := range WithAnon(out[i]) {
+			for _, b := range g.Blocks {
+				for _, in := range b.Instrs {
+					if ci, ok := in.(ssa.CallInstruction); ok {
+						if h := ci.Common().StaticCallee(); isNewHelper(h) && !seen[h] {
+							seen[h] = true
+							out = append(out, h)
+						}
+					}
+				}
+			}
+		}
+	}
+	return out
+}
+
+// rootCallers: the reference-tree functions on whose behalf f runs: f itself, or, for a new helper, the
+// callers of its call sites (transitively).
+func rootCallers(f *ssa.Function) []*ssa.Function {
+	f = lexTop(f)
+	if !isNewHelper(f) {
+		return []*ssa.Function{f}
+	}
+	var out []*ssa.Function
+	seen := map[*ssa.Function]bool{}
+	var up func(g *ssa.Function, d int)
+	up = func(g *ssa.Function, d int) {
+		g = lexTop(g)
+		if seen[g] {
+			return
+		}
+		seen[g] = true
+		if !isNewHelper(g) || d > 4 {
+			out = append(out, g)
+			return
+		}
+		for _, c := range ctxSites[g] {
+			up(c.Parent(), d+1)
+		}
+	}
+	up(f, 0)
+	sort.Slice(out, func(i, j int) bool { return out[i].String() < out[j].String() })
+	return out
 }
 
 // funcPkgPath returns the package path a function belongs to (for generic
@@ -445,6 +532,10 @@ func (s Site) Args() []ssa.Value {
 // CallsIn lists every call instruction (call, defer, go) of f (not nested anon funcs)
 // with a resolvable callee.
 func CallsIn(f *ssa.Function) []Site {
+	return callsInD(f, 0)
+}
+
+func callsInD(f *ssa.Function, depth int) []Site {
 	var out []Site
 	for _, b := range f.Blocks {
 		for _, in := range b.Instrs {
@@ -457,9 +548,130 @@ func CallsIn(f *ssa.Function) []Site {
 				c = Callee{Name: "<dynamic>"}
 			}
 			out = append(out, Site{Fn: f, Instr: ci, Callee: c})
+			// a helper introduced after the reference tree is read as if it were still inline: its own
+			// call sites are listed with the caller's, and remembered as reached "via" this call
+			if h := ci.Common().StaticCallee(); isNewHelper(h) && depth < 3 && h != f {
+				for _, g := range WithAnon(h) {
+					registerVia(f, g, ci)
+				}
+				out = append(out, callsInD(h, depth+1)...)
+			}
 		}
 	}
 	return out
+}
+
+// ---- instructions of transparent helpers ------------------------------------------------
+
+type viaKey struct {
+	f  *ssa.Function
+	in ssa.Instruction
+}
+
+var viaOf = map[viaKey]ssa.Instruction{}
+
+// registerVia records that every instruction of g (a transparent helper, or a helper of it) is reached
+// from f through the call instruction `via` of f.
+func registerVia(f, g *ssa.Function, via ssa.Instruction) {
+	if len(g.Blocks) == 0 {
+		return
+	}
+	if _, done := viaOf[viaKey{f, g.Blocks[0].Instrs[0]}]; done {
+		return
+	}
+	for _, b := range g.Blocks {
+		for _, in := range b.Instrs {
+			viaOf[viaKey{f, in}] = via
+			if ci, ok := in.(ssa.CallInstruction); ok {
+				if h := ci.Common().StaticCallee(); isNewHelper(h) && h != g && h != f {
+					for _, gg := range WithAnon(h) {
+						registerVia(f, gg, via)
+					}
+				}
+			}
+		}
+	}
+}
+
+// helperAlwaysReaches: every (success) return of the transparent helper called at `via` is preceded by
+// `inner`, so passing the call implies having executed inner.
+func helperAlwaysReaches(via ssa.Instruction, inner ssa.Instruction) bool {
+	ci, ok := via.(ssa.CallInstruction)
+	if !ok {
+		return false
+	}
+	h := ci.Common().StaticCallee()
+	if h == nil {
+		return false
+	}
+	rets := SuccessReturns(h)
+	if len(rets) == 0 {
+		return false
+	}
+	return reachAvoidingRaw(h, nil, rets, normAvoid(h, map[ssa.Instruction]bool{inner: true})) == nil
+}
+
+// normTo / normAvoid map instructions that live in transparent helpers onto the call instruction of f
+// through which they are reached: as targets always (reaching the call may reach them), as obstacles only
+// when the helper cannot return successfully without executing them.
+func normTo(f *ssa.Function, set map[ssa.Instruction]bool) map[ssa.Instruction]bool {
+	if len(viaOf) == 0 {
+		return set
+	}
+	var out map[ssa.Instruction]bool
+	for in := range set {
+		if in == nil || in.Parent() == f {
+			continue
+		}
+		if via, ok := viaOf[viaKey{f, in}]; ok {
+			if out == nil {
+				out = map[ssa.Instruction]bool{}
+				for k, v := range set {
+					out[k] = v
+				}
+			}
+			out[via] = true
+		}
+	}
+	if out == nil {
+		return set
+	}
+	return out
+}
+
+func normAvoid(f *ssa.Function, set map[ssa.Instruction]bool) map[ssa.Instruction]bool {
+	if len(viaOf) == 0 {
+		return set
+	}
+	var out map[ssa.Instruction]bool
+	for in := range set {
+		if in == nil || in.Parent() == f {
+			continue
+		}
+		if via, ok := viaOf[viaKey{f, in}]; ok && helperAlwaysReaches(via, in) {
+			if out == nil {
+				out = map[ssa.Instruction]bool{}
+				for k, v := range set {
+					out[k] = v
+				}
+			}
+			out[via] = true
+		}
+	}
+	if out == nil {
+		return set
+	}
+	return out
+}
+
+func normFrom(f *ssa.Function, in ssa.Instruction) ssa.Instruction {
+	if in == nil || in.Parent() == f {
+		return in
+	}
+	if via, ok := viaOf[viaKey{f, in}]; ok {
+		return via
+	}
+	return in
 }
 
 // CallsDeep lists calls of f and its nested anonymous functions.
@@ -506,6 +718,18 @@ func (w *World) CallersOf(pred func(Callee) bool) []Site {
 
 // TopFunc returns the outermost enclosing named function.
 func TopFunc(f *ssa.Function) *ssa.Function {
+	f = lexTop(f)
+	// a helper introduced after the reference tree with a single root caller acts on that caller's behalf
+	if isNewHelper(f) {
+		if roots := rootCallers(f); len(roots) == 1 {
+			return roots[0]
+		}
+	}
+	return f
+}
+
+// lexTop: the top-level function lexically enclosing f.
+func lexTop(f *ssa.Function) *ssa.Function {
 	for f.Parent() != nil {
 		f = f.Parent()
 	}
